@@ -6,7 +6,7 @@ from harness.checks import treefam as F
 PAIRS_Q = [('reg_hook', 'flatten'), ('reg', 'flatten'), ('next', 'next'), ('reg_hook', 'reg_hook'), ('unreg', 'flatten'), ('reg_hook', 'next'),
            ('hash', 'hash'), ('hash', 'reg_hook')]
 PAIRS_T = PAIRS_Q + [('flatten', 'flatten'), ('reg', 'unreg'), ('reg_hook', 'unreg'), ('reg', 'next'), ('reg', 'reg'), ('flatten', 'next')]
-TRIPLES = [('reg_hook', 'flatten', 'flatten'), ('reg', 'unreg', 'flatten'), ('next', 'next', 'next'), ('reg_hook', 'flatten', 'next')]
+TRIPLES = [('reg_hook', 'flatten', 'flatten'), ('reg', 'unreg', 'flatten'), ('reg_hook', 'flatten', 'next'), ('hash', 'hash', 'reg_hook')]
 
 
 def mc(ops, keep, nobj=2, nitems=3):
@@ -68,7 +68,7 @@ def main(run):
     run.extra['design_counterexample_wait_keeps_gil'] = rk.violated
     if rk.violated != 'NoDeadlock':
         run.machinery('the as-found design (WaitKeepsGil) is expected to deadlock in the model; TLC did not find it (vacuity guard)')
-    cap = 400 if quick else 6000
+    cap = 400 if quick else 2500
     if len(cases) > cap:
         import random
         rng = random.Random(run.seed)
